@@ -3472,8 +3472,11 @@ class __implementations__:
 
     @implements(numpy.vdot)
     def vdot(a: IntoArray, b: IntoArray, axes: Optional[Union[int, Sequence[int]]] = None) -> Array:
-        a, b = broadcast_arrays(a, b)
-        return numpy.sum(numpy.conjugate(a) * b, range(a.ndim))
+        a = numpy.ravel(Array.cast(a)) # numpy.vdot flattens its arguments
+        b = numpy.ravel(Array.cast(b))
+        if a.shape != b.shape:
+            raise ValueError(f'cannot compute the vdot of arrays of size {a.size} and {b.size}')
+        return numpy.sum(numpy.conjugate(a) * b, 0)
 
     @implements(numpy.dot)
     def dot(a: IntoArray, b: IntoArray) -> Array:
